@@ -1,6 +1,7 @@
 package main
 
 import (
+	"fmt"
 	"net"
 	"os"
 	"sync"
@@ -22,6 +23,8 @@ type scriptConn struct {
 	bufSizes  []int // len(p) of every Read call
 	deadlines []deadlineCall
 	now       func() time.Time
+	log       []string // ordered: W<ms> / w / R<ms> / r
+	failWrite bool
 }
 
 type deadlineCall struct {
@@ -34,6 +37,7 @@ func (c *scriptConn) Read(p []byte) (int, error) {
 	c.mu.Lock()
 	defer c.mu.Unlock()
 	c.bufSizes = append(c.bufSizes, len(p))
+	c.log = append(c.log, "r")
 	if c.closed {
 		return 0, net.ErrClosed
 	}
@@ -52,7 +56,8 @@ func (c *scriptConn) Read(p []byte) (int, error) {
 func (c *scriptConn) Write(p []byte) (int, error) {
 	c.mu.Lock()
 	defer c.mu.Unlock()
-	if c.closed {
+	c.log = append(c.log, "w")
+	if c.closed || c.failWrite {
 		return 0, net.ErrClosed
 	}
 	k := len(c.writes)
@@ -83,11 +88,13 @@ func (c *scriptConn) SetReadDeadline(t time.Time) error {
 	c.mu.Lock()
 	defer c.mu.Unlock()
 	c.deadlines = append(c.deadlines, deadlineCall{"read", time.Until(t), len(c.reads) + len(c.writes)})
+	c.log = append(c.log, fmt.Sprintf("R%d", (time.Until(t)+5*time.Millisecond)/(10*time.Millisecond)*10))
 	return nil
 }
 func (c *scriptConn) SetWriteDeadline(t time.Time) error {
 	c.mu.Lock()
 	defer c.mu.Unlock()
 	c.deadlines = append(c.deadlines, deadlineCall{"write", time.Until(t), len(c.reads) + len(c.writes)})
+	c.log = append(c.log, fmt.Sprintf("W%d", (time.Until(t)+5*time.Millisecond)/(10*time.Millisecond)*10))
 	return nil
 }
